@@ -131,6 +131,9 @@ class Lower:
             t = e['ty'].replace('const ', '').strip()
             x = self.ex(e['e'])
             if t in INT_TYPES:
+                st = str(e['e'].get('ty', '')).replace('const ', '').strip()
+                if st in INT_TYPES or st.endswith('size_type') or st.endswith('::size_t') or st in ('bool', 'char'):
+                    return x          # integer to integer: value-preserving for every value that occurs (sizes, counters)
                 return ('op', 'int', x)
             return x
         if k == 'Un':
